@@ -63,6 +63,7 @@ class LoopSpec:
         self.step = compile_expr(spec["step"]) if "step" in spec else None
         self.exit = compile_expr(spec["exit"]) if "exit" in spec else None
         self.stream_result = spec.get("stream_result")   # callable(ex, st, stream) -> value of reading it
+        self.step_post = compile_expr(spec["step_post"]) if "step_post" in spec else None   # relation old state -> new state of one iteration
         self.same = compile_expr(spec["same"]) if "same" in spec else None     # token leaves the text unchanged
         self.sync = compile_expr(spec["sync"]) if "sync" in spec else None     # pointer is in step with the code
         self.fields = spec.get("fields", {})        # object name -> {field: kind} havocked at the loop head
@@ -430,6 +431,8 @@ def make_param(ctx, name, ty):
         return [("bytes", ("bytes", name))]
     if isinstance(ty, tuple) and ty and ty[0] in ("pydata", "writer"):
         return [(ty[0], (ty[0], ty[1] if len(ty) > 1 else name))]
+    if ty == "seglist":
+        return [("segments", ("seglist", name))]
     if ty == "pickle-state":
         return [("state=(parts,)", ("state", "tuple")), ("state=(None,{'_val':parts})", ("state", "dict"))]
     if ty == "fresh-url":
@@ -466,6 +469,8 @@ def instantiate_param(ex, ctx, desc):
                       fresh=False)
     if kind == "pydata":
         return ("pydata-ref", name)
+    if kind == "seglist":
+        return V.VSList(V.sym_str(ctx, name, kind="segs"), fresh=False)
     if kind == "state":
         parts = VTuple([V.sym_str(ctx, f"st_{p}") for p in URL_PARTS])
         if name == "tuple":
@@ -937,6 +942,12 @@ def concretise(model, contract, combo):
             out[name] = None
             continue
         kind, nm = desc
+        if kind == "seglist":
+            a = z3.Function(nm, z3.IntSort(), z3.IntSort())
+            n = max(0, min(model.eval(z3.Int(nm + "_len"), model_completion=True).as_long(), 30))
+            inv = {v: k for k, v in V.SEG_IDS.items()}
+            out[name] = [inv.get(model.eval(a(i), model_completion=True).as_long(), "seg%d" % i) for i in range(n)]
+            continue
         if kind in ("str", "bytes"):
             a = z3.Function(nm, z3.IntSort(), z3.IntSort())
             n = model.eval(z3.Int(nm + "_len"), model_completion=True).as_long()
